@@ -305,7 +305,10 @@ class Propagator:
             # Evolving backward in time is not supported by all integrator.
             self.solver.start(qeye_like(self.props[0]), t)
             Uinv = self.solver.step(self.times[idx])
-            U = self._inv(Uinv)
+            U = self._inv(Uinv) @ self.props[idx]
+            # Leave the solver on the evolution that starts from the identity
+            # at time 0, as the forward branch assumes.
+            self.solver.start(U, t)
         return U
 
     def _inv(self, U):
